@@ -276,7 +276,13 @@ Proof. repeat split; vm_compute; reflexivity. Qed.
 Example C01_nonvacuous_syntax : syntax_ok ex_expr.
 Proof.
   cbn [syntax_ok ex_expr allP acc_ok]. unfold float_ok, key_ok.
-  repeat split. eexists. split; [vm_compute; reflexivity | vm_compute; reflexivity].
+  repeat match goal with
+         | |- _ /\ _ => split
+         | |- True => exact I
+         | |- exists _, _ => eexists
+         | |- fl_finite_norm _ => vm_compute; reflexivity
+         | |- _ = _ => vm_compute; reflexivity
+         end.
 Qed.
 
 (* 1 < 'a' has no value; neither has $l[0].x (a non-collection), nor length(3); $l[5] is undefined *)
